@@ -25,6 +25,8 @@ identities between those closed forms, for symbolic geometry j, gamma, omega:
      integrals (monomials in r, integrated in closed form) are eblast and the initial mass inside r2.
 
  (9) ahead of the shock the stored state is rho0 r^-omega, u = 0, p = 0.
+(10) 'at every time': over the operation sequence construct, call(t_a), call(t_c), call(t_d) no returned field of a
+     call depends on the time of another call (the C06 rule re-run for this class).
 
 Identities are zero tests of normal forms (differentiation on the normal form; parameter-dependent
 exponents decomposed over the common denominator of a0..a5; sign orientation at the class defaults,
@@ -43,6 +45,7 @@ from ..vg import Builder, Frame, Closure
 from ..nf import NFEval, NAN, Mono, Sum, PW, Struct, leaves, DiffUnsupported
 from ..ratnf import NFSym, is_zero, exponent_lcm
 from ..radnf import RadNF, Unsupported
+from ..par import run_parallel
 
 LEVEL = 'other'
 PROP = 'C11'
@@ -57,14 +60,18 @@ def closed(x):
     return not (x is NAN or isinstance(x, (PW, Struct)))
 
 
-def cond_value(s):
-    """Value of a condition key that only compares constants (`(3 != 1)`, `phi[(7/24 <= 1/10000)?False:True]`), else None."""
+def cond_value(s, generic=False):
+    """Value of a condition key that only compares constants (`(3 != 1)`, `phi[(7/24 <= 1/10000)?False:True]`), else None.
+    generic: an atomic comparison of non-constant quantities (the `abs(denominator) <= osmall` tests) counts as false --
+    the parameters are generic on the surface under consideration."""
     s = s.strip()
     if s in ('True', 'False'):
         return s == 'True'
     m = CONST_COND.match(s)
     if m:
         return OPS[m.group(2)](Fraction(m.group(1)), Fraction(m.group(3)))
+    if generic and s.startswith('(') and s.endswith(')') and (' <= ' in s or ' < ' in s) and 'builtins.abs(' in s:
+        return False
     if s.startswith('phi[') and s.endswith(']'):
         inner, depth, q, c = s[4:-1], 0, None, None
         for i, ch in enumerate(inner):
@@ -78,10 +85,10 @@ def cond_value(s):
                 c = i
         if q is None or c is None:
             return None
-        cv = cond_value(inner[:q])
+        cv = cond_value(inner[:q], generic)
         if cv is None:
             return None
-        return cond_value(inner[q + 1:c] if cv else inner[c + 1:])
+        return cond_value(inner[q + 1:c] if cv else inner[c + 1:], generic)
     return None
 
 
@@ -105,14 +112,23 @@ def feasible(x):
 
 
 def std_leaf(x, what):
-    """The standard/vacuum piece: every special-singularity condition false."""
-    ls = feasible(x)
-    for conds, leaf in ls:
-        if all(not pol for _, pol in conds):
-            return leaf
-    if len(ls) == 1:
-        return ls[0][1]
-    raise AnalysisError('%s: standard piece not found' % what)
+    """The piece for generic parameters: every `abs(denominator) <= osmall` test that is not decided by the
+    substitutions made is false (standard/vacuum piece; on a special surface, that surface's piece)."""
+    ls = []
+    for conds, leaf in leaves(x):
+        ok = True
+        for ck, pol, _ in conds:
+            cv = cond_value(ck, generic=True)
+            if cv is None:
+                raise AnalysisError('%s: condition not decided for generic parameters: %s' % (what, ck[:80]))
+            if cv != pol:
+                ok = False
+                break
+        if ok:
+            ls.append(leaf)
+    if len(ls) != 1:
+        raise AnalysisError('%s: %d pieces for generic parameters' % (what, len(ls)))
+    return ls[0]
 
 
 class Ctx:
@@ -164,13 +180,16 @@ class Ctx:
                 pass
         return s
 
-    def ev(self, j=None, omega=None, alpha_opaque=True, v_at=None, alpha_singular=False, values=None):
+    def ev(self, j=None, omega=None, alpha_opaque=True, v_at=None, alpha_singular=False, values=None,
+           unclamp=('denom2', 'denom3'), zero_nodes=(), sample=None):
         """NFEval on the instance.  j: geometry fixed to 1/2/3; omega: field element substituted for omega;
         alpha_opaque: alpha (quad results) is one positive atom; v_at: node whose value replaces v."""
         b, h = self.b, self.h
         ev = NFEval(self.keys + ['v', 'rr', 'alpha'])
-        ev.sample = self.sample()
+        ev.sample = dict(self.sample(), **(sample or {}))
         ev.factor_symbolic = True
+        for n in zero_nodes:
+            ev.memo[n.nid] = ev.num(0)
         if j is not None:
             pn = b.param_nodes[(self.oid, 'geometry')]
             ev.memo[pn.nid] = ev.num(j)
@@ -187,7 +206,7 @@ class Ctx:
         if alpha_opaque:
             ev.memo[h['alpha'].nid] = ev.atom('param:alpha')
         # the un-clamped denominators (the clamp only acts on the measure-zero special cases)
-        for nm in ('denom2', 'denom3'):
+        for nm in unclamp:
             n = h[nm]
             while n.kind == 'phi':
                 n = n.args[2]
@@ -315,9 +334,48 @@ def origin(n):
 
 
 # ---------------------------------------------------------------------------------------------------------------
-def standard(cx, res):
+def special_omega(cx, which):
+    """omega on the surface denom2 == 0 / denom3 == 0, solved from the code's own denominators (linear in omega)."""
+    ev0 = cx.ev()
+    n = cx.h[which]
+    while n.kind == 'phi':
+        n = n.args[2]
+    expr = ev0.R.ratval(n).as_expr()
+    sol = sp.solve(sp.numer(sp.together(expr)), sp.Symbol('omega'))
+    if len(sol) != 1:
+        raise AnalysisError('%s == 0 is not one value of omega' % which)
+    return ev0.S.parse_F(str(sp.together(sol[0])))
+
+
+def special(cx, res, parts=('misc', 'mass', 'momentum', 'energy')):
+    """The two special-singularity branches of sedov_funcs_standard, each on its own surface in parameter space."""
+    standard(cx, res, branch='omega2', parts=parts)
+    standard(cx, res, branch='omega3', parts=parts)
+
+
+def standard(cx, res, branch='standard', parts=('misc', 'mass', 'momentum', 'energy')):
     b, h = cx.b, cx.h
-    ev = cx.ev()
+    if branch == 'standard':
+        mk = lambda **kw: cx.ev(**kw)
+        tag = ''
+    else:
+        den = {'omega2': 'denom2', 'omega3': 'denom3'}[branch]
+        w = special_omega(cx, den)
+        other = tuple(d for d in ('denom2', 'denom3') if d != den)
+        dn = h[den]
+        while dn.kind == 'phi':
+            dn = dn.args[2]
+        # a sample point of the similarity variable inside the range of integration of this branch (class defaults for
+        # geometry and gamma): the bases of the real powers are oriented there
+        smp = cx.sample()
+        ev0 = cx.ev(omega=w, unclamp=other, zero_nodes=[dn])
+        vals = {sp.Symbol(k.split(':')[1]): v for k, v in smp.items() if k.startswith('param:')}
+        num = lambda a: ev0.R.ratval(h[a]).as_expr().subs(vals)
+        v2n, vsn = num('v2'), num('vstar')
+        vs = (num('v0') + v2n) / 2 if v2n < vsn else (v2n + num('vv')) / 2
+        mk = lambda **kw: cx.ev(omega=w, unclamp=other, zero_nodes=[dn], sample={V: sp.nsimplify(vs)}, **kw)
+        tag = '%s branch (omega = %s): ' % (branch, w)
+    ev = mk()
     names = ['l_fun', 'dlamdv', 'f_fun', 'g_fun', 'h_fun']
     F = {}
     for i, nm in enumerate(names):
@@ -338,36 +396,45 @@ def standard(cx, res):
     except DiffUnsupported as ex:
         raise AnalysisError('lambda(v) cannot be differentiated: %s' % ex)
     # (1)
-    check(res, cx.f_std, 'dlamdv == d(l_fun)/dv', zero(ev.add(lamv_code, lam_v, -1)),
-          'sedov_funcs_standard: the hand-written derivative dlamdv is not the derivative of l_fun with respect to v: both energy '
-          'integrals are taken with the wrong Jacobian')
+    if 'misc' in parts:
+        check(res, cx.f_std, tag + 'dlamdv == d(l_fun)/dv', zero(ev.add(lamv_code, lam_v, -1)),
+              'sedov_funcs_standard: ' + tag + 'the hand-written derivative dlamdv is not the derivative of l_fun with respect to v: '
+              'both energy integrals are taken with the wrong Jacobian')
     gamma = ev.atom('param:gamma')
     gm1 = ev.add(gamma, ev.num(1), -1)
     jexp = ev.S.syms['geometry']
     jm1 = ev.field_nf(jexp - 1)
     inv = lambda x: ev.power(x, ev.S.F(-1))
     # (2) Euler equations in parametric form
-    try:
-        d = ev.diff
-        r = ev.mul(r2, lam)
-        dr = lambda X: ev.mul(d(X, V), inv(ev.mul(r2, lam_v)))                            # d/dr at fixed t
-        vt = ev.mul(ev.num(-1), ev.mul(ev.mul(d(r2, T), lam), inv(ev.mul(r2, lam_v))))    # dv/dt at fixed r
-        dt = lambda X: ev.add(d(X, T), ev.mul(d(X, V), vt))                               # d/dt at fixed r
-        rho, u, p = ev.mul(rho2, g), ev.mul(u2, f), ev.mul(p2, hh)
-        e = ev.mul(p, inv(ev.mul(gm1, rho)))
-        div_u = ev.add(dr(u), ev.mul(ev.mul(jm1, u), inv(r)))
-        mass = ev.add(ev.add(dt(rho), ev.mul(u, dr(rho))), ev.mul(rho, div_u))
-        mom = ev.add(ev.add(dt(u), ev.mul(u, dr(u))), ev.mul(dr(p), inv(rho)))
-        en = ev.add(ev.add(dt(e), ev.mul(u, dr(e))), ev.mul(ev.mul(p, inv(rho)), div_u))
-    except DiffUnsupported as ex:
-        raise AnalysisError('Sedov similarity functions cannot be differentiated: %s' % ex)
-    for label, x in (('mass', mass), ('momentum', mom), ('energy', en)):
-        check(res, cx.f_std, 'similarity solution: %s equation' % label, zero(x),
-              'Sedov (standard / vacuum branch): the parametric field (r2 lambda, rho2 g, u2 f, p2 h) does not satisfy the %s '
-              'equation; mass and energy behind the shock are then not conserved' % label)
+    eqs = [q for q in ('mass', 'momentum', 'energy') if q in parts]
+    if eqs:
+        try:
+            d = ev.diff
+            r = ev.mul(r2, lam)
+            dr = lambda X: ev.mul(d(X, V), inv(ev.mul(r2, lam_v)))                            # d/dr at fixed t
+            vt = ev.mul(ev.num(-1), ev.mul(ev.mul(d(r2, T), lam), inv(ev.mul(r2, lam_v))))    # dv/dt at fixed r
+            dt = lambda X: ev.add(d(X, T), ev.mul(d(X, V), vt))                               # d/dt at fixed r
+            rho, u, p = ev.mul(rho2, g), ev.mul(u2, f), ev.mul(p2, hh)
+            div_u = lambda: ev.add(dr(u), ev.mul(ev.mul(jm1, u), inv(r)))
+            resid = {}
+            if 'mass' in eqs:
+                resid['mass'] = ev.add(ev.add(dt(rho), ev.mul(u, dr(rho))), ev.mul(rho, div_u()))
+            if 'momentum' in eqs:
+                resid['momentum'] = ev.add(ev.add(dt(u), ev.mul(u, dr(u))), ev.mul(dr(p), inv(rho)))
+            if 'energy' in eqs:
+                e = ev.mul(p, inv(ev.mul(gm1, rho)))
+                resid['energy'] = ev.add(ev.add(dt(e), ev.mul(u, dr(e))), ev.mul(ev.mul(p, inv(rho)), div_u()))
+        except DiffUnsupported as ex:
+            raise AnalysisError('Sedov similarity functions cannot be differentiated: %s' % ex)
+        for label in eqs:
+            check(res, cx.f_std, tag + 'similarity solution: %s equation' % label, zero(resid[label]),
+                  'Sedov (%s): the parametric field (r2 lambda, rho2 g, u2 f, p2 h) does not satisfy the %s equation; mass and '
+                  'energy behind the shock are then not conserved' % (tag.rstrip(': ') or 'standard / vacuum branch', label))
+    if 'misc' not in parts:
+        return
     # (3) time independence
     rj = ev.power(r2, jexp)
-    for label, x in (('r2^j rho2 u2^2', ev.mul(rj, ev.mul(rho2, ev.mul(u2, u2)))), ('r2^j p2', ev.mul(rj, p2))):
+    for label, x in () if branch != 'standard' else (('r2^j rho2 u2^2', ev.mul(rj, ev.mul(rho2, ev.mul(u2, u2)))), ('r2^j p2', ev.mul(rj, p2))):
         try:
             ok = zero(ev.diff(x, T))
         except DiffUnsupported:
@@ -375,37 +442,38 @@ def standard(cx, res):
         check(res, cx.runm, '%s independent of t' % label, ok,
               'Sedov: %s depends on time: the energy behind the shock is not the same at every time' % label, at=origin(h['p2']))
     # (4) integrands
-    xg2 = jexp + 2 - ev.S.syms['omega']
+    xg2 = jexp + 2 - (ev.S.syms['omega'] if branch == 'standard' else w)
     scale = ev.mul(ev.mul(ev.atom('param:rho0'), ev.power(r2, xg2)), ev.power(ev.atom(T), ev.S.F(-2)))
     shell = ev.mul(ev.mul(rj, ev.power(lam, jexp - 1)), lam_v)
     kin = ev.mul(shell, ev.mul(ev.mul(rho2, ev.mul(u2, u2)), ev.mul(g, ev.mul(f, f))))
     inte = ev.mul(shell, ev.mul(p2, hh))
-    check(res, cx.f_e1, 'efun01 is the kinetic energy of a shell: r2^j lam^(j-1) lam_v rho2 u2^2 g f^2 == (rho0 r2^(j+2-w)/t^2) efun01',
+    check(res, cx.f_e1, tag + 'efun01 is the kinetic energy of a shell: r2^j lam^(j-1) lam_v rho2 u2^2 g f^2 == (rho0 r2^(j+2-w)/t^2) efun01',
           zero(ev.add(kin, ev.mul(scale, E1), -1)),
-          'efun01: the integrand of the first energy integral is not the kinetic energy density rho u^2 of the similarity solution in '
+          'efun01: ' + tag + 'the integrand of the first energy integral is not the kinetic energy density rho u^2 of the similarity solution in '
           'the scaling alpha uses: alpha is then not the dimensionless energy of the returned profile and the energy behind the shock '
           'is not eblast')
-    check(res, cx.f_e2, 'efun02 is the internal energy of a shell: r2^j lam^(j-1) lam_v p2 h == (rho0 r2^(j+2-w)/t^2) efun02',
+    check(res, cx.f_e2, tag + 'efun02 is the internal energy of a shell: r2^j lam^(j-1) lam_v p2 h == (rho0 r2^(j+2-w)/t^2) efun02',
           zero(ev.add(inte, ev.mul(scale, E2), -1)),
-          'efun02: the integrand of the second energy integral is not the pressure of the similarity solution in the scaling alpha '
+          'efun02: ' + tag + 'the integrand of the second energy integral is not the pressure of the similarity solution in the scaling alpha '
           'uses: the energy behind the shock is then not eblast')
     # (5) shock radius
-    check(res, cx.runm, 'alpha rho0 r2^(j+2-omega) / t^2 == eblast',
-          zero(ev.add(ev.mul(ev.atom('param:alpha'), scale), ev.atom('param:eblast'), -1)),
-          'Sedov: the shock radius does not invert E = alpha rho0 r2^(j+2-omega)/t^2 = eblast', at=origin(h['r2']))
+    if branch == 'standard':
+        check(res, cx.runm, 'alpha rho0 r2^(j+2-omega) / t^2 == eblast',
+              zero(ev.add(ev.mul(ev.atom('param:alpha'), scale), ev.atom('param:eblast'), -1)),
+              'Sedov: the shock radius does not invert E = alpha rho0 r2^(j+2-omega)/t^2 = eblast', at=origin(h['r2']))
     # (7a) the shock is at the upper limit v2 with the post-shock state
-    ev2 = cx.ev(v_at=h['v2'])
+    ev2 = mk(v_at=h['v2'])
     at_v2 = {nm: std_leaf(ev2.nf(b.mk('sub', args=[cx.funcs, b.const(i)])), nm) for i, nm in enumerate(names)}
     z2 = Zero(ev2, list(at_v2.values()))
     for i, nm in enumerate(names):
         if nm == 'dlamdv':
             continue
         x = at_v2[nm]
-        check(res, cx.f_std, '%s(v2) == 1' % nm, closed(x) and z2(ev2.add(x, ev2.num(1), -1)),
-              'sedov_funcs_standard: %s is not 1 at the upper limit v2 of the energy integrals: the shock front is not at '
+        check(res, cx.f_std, tag + '%s(v2) == 1' % nm, closed(x) and z2(ev2.add(x, ev2.num(1), -1)),
+              'sedov_funcs_standard: ' + tag + '%s is not 1 at the upper limit v2 of the energy integrals: the shock front is not at '
               'lambda = 1 with the post-shock state, the integrals do not extend to the shock' % nm)
     # (7b) inner limits
-    for lim, what in (('v0', 'standard'), ('vv', 'vacuum')):
+    for lim, what in () if branch != 'standard' else (('v0', 'standard'), ('vv', 'vacuum')):
         ev3 = cx.ev(v_at=h[lim])
         z3 = Zero(ev3)
         hit = 0
@@ -640,6 +708,58 @@ def ahead(cx, res):
           'Sedov._run: ahead of the shock the stored state is not the undisturbed initial state rho0 r^-omega, u = 0, p = 0', at=st)
 
 
+def _timed(fn):
+    def run_(cx, res):
+        import time
+        t0 = time.time()
+        _LAST[0] = t0
+        fn(cx, res)
+        res.extra.setdefault('seconds', {})[fn.__name__] = round(time.time() - t0, 1)
+    run_.__name__ = fn.__name__
+    return run_
+
+
+def _std_part(cx, parts, res):
+    import time
+    t0 = time.time()
+    _LAST[0] = t0
+    standard(cx, res, parts=parts)
+    res.extra.setdefault('seconds', {})['standard:%s' % ','.join(parts)] = round(time.time() - t0, 1)
+
+
+def interior_pde_tasks(model):
+    """The Euler equations of the Sedov interior (all three branches of the similarity functions) as parallel tasks;
+    shared with C01."""
+    cx = Ctx(model)
+    eq = ('mass', 'momentum', 'energy')
+    return [(_std_part, (cx, (q,))) for q in eq] + [(lambda cx_, res: special(cx_, res, parts=eq), (cx,))]
+
+
+def every_time(cx, res):
+    """'At every time': the fields returned by a call depend on that call's time only -- no quantity computed for the
+    time of an earlier call of the same solver object (a cached shock or vacuum-boundary radius) survives into a later
+    call.  The C06 operation-sequence rule, re-run for the Sedov class."""
+    from . import c06
+    part = Result('C06')
+    stats = {'fields': 0, 'shared_reads': 0, 'ops': 0, 'stale_reads': [], 'ctor_mutation_sites': 0}
+    c06.check_class(cx.model, cx.cls, part, stats)
+    if part.obligations < 10:
+        raise AnalysisError('only %d returned fields analysed over the operation sequence (confirmed: 24)' % part.obligations)
+    res.obligations += part.obligations
+    res.discharged += part.discharged
+    res.evaluations += part.obligations
+    res.nontrivial += part.obligations
+    for f in part.findings:
+        f.prop = PROP
+        f.rule = 'C11.every-time'
+        res.add(f)
+
+
+def _rest(cx, res):
+    for part in (limits, normalisation, singular, ahead, every_time):
+        _timed(part)(cx, res)
+
+
 def run(model, tier):
     res = Result(PROP)
     res.explanation = (
@@ -660,13 +780,13 @@ def run(model, tier):
     _LAST[0] = time.time()
     cx = Ctx(model)
     only = os.environ.get('C11_ONLY')
-    for part in (standard, limits, normalisation, singular, ahead):
-        if only and part.__name__ not in only.split(','):
-            continue
-        t0 = time.time()
-        part(cx, res)
-        res.extra.setdefault('seconds', {})[part.__name__] = round(time.time() - t0, 1)
+    tasks = [('standard', _std_part, (cx, ('misc',))), ('standard', _std_part, (cx, ('mass',))),
+             ('standard', _std_part, (cx, ('momentum',))), ('standard', _std_part, (cx, ('energy',))),
+             ('special', _timed(special), (cx,)), ('limits', _rest, (cx,))]
+    if only:
+        tasks = [t for t in tasks if t[0] in only.split(',')]
+    run_parallel([(fn, args) for _, fn, args in tasks], res)
     res.analysed.append(CLS)
-    if res.obligations < 34 and not only:
-        raise AnalysisError('only %d identities analysed (confirmed: 38)' % res.obligations)
+    if res.obligations < 50 and not only:
+        raise AnalysisError('only %d identities analysed (confirmed: 58)' % res.obligations)
     return res
